@@ -321,17 +321,15 @@ impl FromStr for PartialDSym {
                 let ms_i = spec.m_spec.get(i).unwrap();
                 let mut k = 0;
 
-                for d in 1..=spec.size {
-                    if dsym.v(i, i + 1, d) == Some(0) {
-                        let &m = ms_i.get(k)
-                            .ok_or("incomplete degree spec".to_string())?;
-                        let r = dsym.r(i, i + 1, d).unwrap(); 
-                        if m % r != 0 {
-                            return Err("illegal degree value".into());
-                        }
-                        dsym.set_v(i, d, m / r);
-                        k += 1;
+                for d in dsym.orbit_reps_2d(i, i + 1) {
+                    let &m = ms_i.get(k)
+                        .ok_or("incomplete degree spec".to_string())?;
+                    let r = dsym.r(i, i + 1, d).unwrap(); 
+                    if m % r != 0 {
+                        return Err("illegal degree value".into());
                     }
+                    dsym.set_v(i, d, m / r);
+                    k += 1;
                 }
 
                 if k < ms_i.len() {
